@@ -1,16 +1,32 @@
-import PbVerif.Lemmas.JsonTextScalarT
+import PbVerif.Lemmas.JsonTextRoundTM2
 /-
 C24 — prototext round-trips every message (tree level; Model/JsonText.lean).
 
 Full statement (DESIGN §6):
     fromText_toText : WFMsg m → fromText S mi (toText S mi m) = ok (dropUnknown (canon m))
-`Multiline`, `Indent` and `EmitASCII` do not exist at tree level (whitespace between tokens, escaping inside string
-literals): the tree-level theorems compose with the lexical round trips of engine textstr (C25: string
-literals, both ASCII modes) and of the number/literal tokens (`TLaws`, validated by the harness: all 2^32 float32
-patterns in the thorough tier).  Proved here:
+for every Multiline / Indent / EmitASCII setting.  None of the three exists at tree level: Multiline/Indent change
+the whitespace between tokens, EmitASCII the escaping inside string literals.  The tree-level theorem composes with
+the lexical round trips proved elsewhere — string literals in both ASCII modes: engine textstr (C25); number and
+literal tokens, float formatting: the hypothesis `TLaws` (never an axiom), validated by the harness (all 2^32
+float32 patterns in the thorough tier); they are NOT reproved here.
 
-  * scalar_roundtrip           every scalar kind, every value
-  * float32_law_refuted        finding 15 at the level of the laws: stated as what the harness measures
+PROVED (`…_partial`): for ALL schemas, messages and limits in the fragment `RepMsgTM ok32`:
+  singular scalars of every kind (bool literals, integers, enums by name or by number, strings — valid UTF-8 only
+  where the field enforces it —, bytes, float/double bit for bit incl. nan, inf and -inf with all NaNs one value),
+  presence disciplines, repeated fields printed as repeated `name: value` and re-appended, nested messages and
+  groups to any depth ≤ RecursionLimit, oneofs (seenOneofs), extensions (`[full.name]`), duplicate detection
+  (seenNums) never firing on the encoder's output, unknown fields dropped;
+  populated MAP fields: entries printed as `name: {key: k value: v}` in key order (`GenericKeyOrder`), each
+  re-inserted by `unmarshalMap`/`unmarshalMapEntry` (distinct keys: every `mmap.Set` appends), the extra recursion
+  level of `unmarshalMap` (a map field needs `1 ≤ limit` where it stands and its values see `limit - 1`), result =
+  the key-sorted normal form.
+
+OUTSIDE the fragment (covered by the implementation-level check of the harness only):
+  * expanded google.protobuf.Any, MessageSets, EmitUnknown, required-field checking (AllowPartial);
+  * float32 values for which the lexical law fails in the code as it is: 0x15AE43FD and 0x95AE43FD (DESIGN
+    finding 15) — `ok32Current`; after fixes/prototext-float32-parse.diff the law holds for every value and the
+    theorem applies with `ok32 := fun _ => true`;
+  * messages nested deeper than the decoder's RecursionLimit (Marshal has no limit).
 -/
 namespace C24
 open JT Pb
@@ -23,8 +39,7 @@ theorem scalar_roundtrip (C : TCodec) (ok32 : Nat → Bool) (L : TLaws C ok32) (
   tdTok_tScalar C ok32 L fx v hw hen hnd
 
 /-- the float32 values for which `Token.Float32 (appendFloat v) = v` holds in the code as it is: all but the two
-double-rounding values of DESIGN finding 15 (measured exhaustively by the harness, thorough tier); after
-fixes/prototext-float32-parse.diff: `fun _ => true` -/
+double-rounding values of DESIGN finding 15 (measured exhaustively by the harness, thorough tier) -/
 def ok32Current (b : Nat) : Bool := b != 0x15AE43FD && b != 0x95AE43FD
 
 example : wfScalarT ok32Current { f := { num := 1, kind := .float, card := .optional }, jsonNames := [], textNames := [] }
@@ -33,5 +48,63 @@ example : wfScalarT ok32Current { f := { num := 1, kind := .float, card := .opti
 /-- the two values are outside the proved fragment of the code as it is -/
 example : wfScalarT ok32Current { f := { num := 1, kind := .float, card := .optional }, jsonNames := [], textNames := [] }
     (.num 0x15AE43FD) = false := by decide
+
+/-- **`fromText_toText_partial`**: for every schema (hypotheses `SchemaT`), every decoder option record, every limit
+and every message of the fragment: `Unmarshal(Marshal(m))` succeeds and yields `m` without unknown fields, floats
+bit for bit (NaNs as one value) -/
+theorem fromText_toText_partial (C : TCodec) (ok32 : Nat → Bool) (L : TLaws C ok32) (D : DOpts) (X : SchemaX)
+    (hS : SchemaT X) (mi : Nat) (limit : Int) (m : Msg) (hrep : RepMsgTM ok32 X mi limit m) :
+    ∃ tfs, toText C X mi m = .ok tfs ∧ fromText C D X mi limit tfs = .ok (normMsg X mi m) :=
+  rtTM_msg C D X ok32 hS L m mi limit hrep
+
+/-- the same after fixes/prototext-float32-parse.diff: every float32 bit pattern -/
+theorem fromText_toText_fixed (C : TCodec) (L : TLaws C (fun _ => true)) (D : DOpts) (X : SchemaX)
+    (hS : SchemaT X) (mi : Nat) (limit : Int) (m : Msg) (hrep : RepMsgTM (fun _ => true) X mi limit m) :
+    ∃ tfs, toText C X mi m = .ok tfs ∧ fromText C D X mi limit tfs = .ok (normMsg X mi m) :=
+  rtTM_msg C D X _ hS L m mi limit hrep
+
+/-- the hypotheses are satisfiable by a non-trivial message: `{1: 1.0f, 3: [7, 7]}` -/
+def exSchema : SchemaX :=
+  { msgs := [
+      { fields := [
+          { f := { num := 1, kind := .float, card := .optional }, jsonNames := [ascii ['a']], textNames := [ascii ['a']], presence := true },
+          { f := { num := 3, kind := .uint32, card := .repeated }, jsonNames := [ascii ['r']], textNames := [ascii ['r']] }] }] }
+
+def exMsg : Msg :=
+  .mk (.cons 1 (.one (.num 0x3f800000)) (.cons 3 (.many (.cons (.num 7) (.cons (.num 7) .nil))) .nil)) []
+
+theorem oneofExcl_of_none (d : MsgX) (fs : Fields) (h : ∀ fx ∈ d.fields, fx.oneofIdx = none) : OneofExcl d fs := by
+  intro a b fa fb o _ _ h3 _ h5 _
+  have := h fa (find_mem h3).1
+  rw [this] at h5
+  cases h5
+
+example : RepMsgTM ok32Current exSchema 0 100 exMsg := by
+  have e0 : OneofExcl (exSchema.msg 0) (.cons 1 (.one (.num 0x3f800000)) (.cons 3 (.many (.cons (.num 7) (.cons (.num 7) .nil))) .nil)) :=
+    oneofExcl_of_none _ _ (by decide)
+  have v1 : wfScalarT ok32Current { f := { num := 1, kind := .float, card := .optional }, jsonNames := [ascii ['a']], textNames := [ascii ['a']], presence := true } (.num 0x3f800000) = true := by decide
+  have v7 : wfScalarT ok32Current { f := { num := 3, kind := .uint32, card := .repeated }, jsonNames := [ascii ['r']], textNames := [ascii ['r']] } (.num 7) = true := by decide
+  exact ⟨by decide, rfl, rfl, e0, by decide, ⟨by decide, by decide, v1, by decide⟩, by decide,
+    ⟨rfl, Or.inl ⟨rfl, v7, v7, trivial⟩⟩, trivial⟩
+
+
+/-- … and by a message with a populated map field: `{5: {3 ↦ "x"}}` -/
+def exSchemaM : SchemaX :=
+  { msgs := [
+      { fields := [
+          { f := { num := 5, kind := .message, card := .map, sub := 1 }, jsonNames := [ascii ['m']], textNames := [ascii ['m']] }] },
+      { fields := [
+          { f := { num := 1, kind := .int32, card := .optional }, jsonNames := [sKey], textNames := [sKey], presence := true },
+          { f := { num := 2, kind := .string, card := .optional }, jsonNames := [sValue], textNames := [sValue], presence := true }] }] }
+
+def exMsgM : Msg :=
+  .mk (.cons 5 (.many (.cons (.msg (.mk (.cons 1 (.one (.num 3)) (.cons 2 (.one (.bytes (ascii ['x']))) .nil)) [])) .nil)) .nil) []
+
+example : RepMsgTM ok32Current exSchemaM 0 100 exMsgM := by
+  have e0 : OneofExcl (exSchemaM.msg 0) (.cons 5 (.many (.cons (.msg (.mk (.cons 1 (.one (.num 3)) (.cons 2 (.one (.bytes (ascii ['x']))) .nil)) [])) .nil)) .nil) :=
+    oneofExcl_of_none _ _ (by decide)
+  have vk : wfScalarT ok32Current { f := { num := 1, kind := .int32, card := .optional }, jsonNames := [sKey], textNames := [sKey], presence := true } (.num 3) = true := by decide
+  have vv : wfScalarT ok32Current { f := { num := 2, kind := .string, card := .optional }, jsonNames := [sValue], textNames := [sValue], presence := true } (.bytes (ascii ['x'])) = true := by decide
+  exact ⟨by decide, rfl, rfl, e0, by decide, ⟨rfl, Or.inr ⟨rfl, by decide, ⟨rfl, rfl, rfl, rfl, vk, vv⟩, trivial⟩⟩, trivial⟩
 
 end C24
